@@ -482,7 +482,7 @@ class World:
 # ---- generation -----------------------------------------------------------------------------------
 
 # (the last entries carry regex escapes that a JSON-style unescaping of the quoted text would change: \b, \\, \d ...)
-REGEX_POOL = ["qz?", "xy*", "x{0,2}q", "10?", "tx?rue", "Tr?ue", "No?ne", "x\\b", "\\bq", "q\\b", "\\d+", "\\w+$", "\\s*x", "a\\\\b", "[^\\\\]+$", "(x)\\1", "\\.", ".*", "x", "q", "[a-z]+", "1", "[0-9]+$", "", "L+A$", "^q", ".", "None", "\\(", "é", "a b", "a  b", "a\tb", ".* x", ".*  x", "q .*"]
+REGEX_POOL = ["qz?", "xy*", "x{0,2}q", "10?", "tx?rue", "Tr?ue", "No?ne", "x\\b", "\\bq", "q\\b", "\\d+", "\\w+$", "\\s*x", "a\\\\b", "[^\\\\]+$", "(x)\\1", "\\.", ".*", "x", "q", "[a-z]+", "1", "[0-9]+$", "", "L+A$", "^q", ".", "None", "\\(", "é", "a b", "a  b", "a\tb", ".* x", ".*  x", "q .*", "a.c", ".+c", "x.*y", "line.break"]
 
 
 class Gen:
@@ -504,7 +504,7 @@ class Gen:
             # end-anchored numeric regexes: the same text is then met by ==-equal values that print differently
             # (1, 1.0, True)
             return self.r("re").choice(["[0-9]+$", "1$", "[01]$", "0$", "-?[0-9]+$", "True", "1"])
-        if isinstance(val, str) and val and self.r("re").random() < 0.15:
+        if isinstance(val, str) and val and "\n" not in val and self.r("re").random() < 0.15:
             # the value followed by an OPTIONAL extra character / with its last character made optional or repeated
             q = self.r("re").choice(["?", "*", "{0,2}"])
             body = re.escape(val).replace('"', ".")
@@ -978,7 +978,11 @@ def make_config(rseed: int, prop: str, tier: str, faults: bool) -> dict[str, Any
             "leaf_classes": ["LeafA", "LeafB", "LeafA2", "Meta"] + r.sample(["Vals", "Vals", "Lit", "Upper", "Both"], r.choice([0, 1, 2])),
             "inner_classes": r.sample(["Pair", "Seq", "Mixed", "Fixed", "Falsy"], r.choice([2, 3, 5])),
             "origins": r.sample(U.ORIGIN_KEYS, r.choice([2, 3])),
-            "pools": {"str": r.sample([s for s in U.STR_POOL if "\n" not in s] + ["a b", "a  b", "a\tb", "q  x", "a\\b", "x b", "q1", "xx"], r.choice([2, 3, 5])), "bool": [True, False]},
+            "pools": {
+                # 25 % of runs: multi-line values (the oracle is re.match(regex, str(value)): '.' stops at a line break)
+                "str": (["a\nc", "x\ny", "line\nbreak", "\n"] if r.random() < 0.25 else []) + r.sample([s for s in U.STR_POOL if "\n" not in s] + ["a b", "a  b", "a\tb", "q  x", "a\\b", "x b", "q1", "xx"], r.choice([2, 3, 5])),
+                "bool": [True, False],
+            },
             "actors": ["m0"],
             "rtc": False,
         },
